@@ -321,7 +321,7 @@ var (
 	Time              = regexp.MustCompile(`^[0-9]+[\.]?[0-9]*(s|ms)?$`)
 	TransitionProp    = regexp.MustCompile(`^([a-zA-Z]+,[ ]?)*[a-zA-Z]+$`)
 	TranslateScale    = regexp.MustCompile(`(translate|translate3d|translatex|translatey|translatez|scale|scale3d|scalex|scaley|scalez)\(`)
-	URL               = regexp.MustCompile(`^url\([\"\']?((https|http)://[a-z0-9\./_:]+[\"\']?)\)$`)
+	URL               = regexp.MustCompile(`^url\(("(https|http)://[a-z0-9\./_:]+"|'(https|http)://[a-z0-9\./_:]+'|(https|http)://[a-z0-9\./_:]+)\)$`)
 	ZIndex            = regexp.MustCompile(`^[\-]?[0-9]+$`)
 )
 
